@@ -225,5 +225,6 @@ Definition nontrivial (ps : list prog) : bool :=
   existsb (fun p => 2 <=? depth p) ps || existsb has_exc ps || (2 <=? count_true (map active ps)).
 Definition count_nontrivial (cases : list ocase) : nat :=
   count_true (map (fun k : ocase => let '(ps, _, _) := k in nontrivial ps) cases).
+(* counts program sets, not runs (a nat printed by vm_compute must stay small) *)
 Definition xcount_nontrivial (cases : list xcase) : nat :=
-  list_sum (map (fun k : xcase => if nontrivial (fst k) then length (snd k) else 0) cases).
+  count_true (map (fun k : xcase => nontrivial (fst k)) cases).
